@@ -34,6 +34,10 @@ def render(skel, indent=""):
             out.append(f"{indent}ldx.w {st[1]}")
         elif k == "nop":
             out.append(f"{indent}nop")
+        elif k == "ascii":
+            out.append(f"{indent}.ascii '{st[1]}'")
+        elif k == "incbin":
+            out.append(f"{indent}.incbin '{st[1]}'")
         elif k == "raw":
             out.append(f"{indent}{st[1]}")
         elif k == "label":
@@ -95,6 +99,10 @@ def walk(skel, lay, val, macros=None, on_label=None):
             lay.emit([B(0xAE)] + le(val(st[1]), 2))
         elif k == "nop":
             lay.emit([B(0xEA)])
+        elif k == "ascii":
+            lay.emit([B(ord(c)) for c in st[1]])
+        elif k == "incbin":
+            lay.emit([B(x) for x in st[2]])
         elif k == "raw":
             lay.emit([B(0)] * st[2])      # opaque statement of known size (bytes irrelevant for addresses)
         elif k == "label":
